@@ -214,9 +214,9 @@ PROPS['C10'] = {
     'queries': [dict(name='placement_two_pools', kernel='C10_placement.cpp', prefix='plc_', mode='seq', inline=20000, unwind=26, covers=[0], timeout=1800)],
 }
 
-def _c15(n, m, sh, shape, tiers):
-    return dict(name='%s_%s' % (n, sh), kernel='C15_affinity.cpp', prefix='aff_', mode='seq', inline=20000, unwind=10, lower_defs=['-DPIKA_HAVE_MAX_CPU_COUNT=64'], params=[m] + list(shape), covers=[0], unwind_obligation=True,
-                timeout=3000, tiers=tiers)
+def _c15(n, m, sh, shape, tiers, cap=8):
+    return dict(name='%s_%s' % (n, sh), kernel='C15_affinity.cpp', prefix='aff_', mode='seq', inline=20000, unwind=cap + 2, lower_defs=['-DPIKA_HAVE_MAX_CPU_COUNT=64', '-DVERIF_VEC_CAP=%d' % cap],
+                params=[m] + list(shape), covers=[0], unwind_obligation=True, timeout=6000, tiers=tiers)
 
 
 _modes = {'compact': 1, 'scatter': 2, 'balanced': 4, 'numa_balanced': 8}
@@ -228,7 +228,8 @@ PROPS['C15'] = {
         'std::vector is replaced, for the body of parse_affinity_options.cpp only, by a fixed-capacity stand-in with the same interface (kernels/env_fixed_vector.hpp, capacity 8; exceeding it or indexing out of range is an assertion failure).',
         'Not covered: affinity_data / resource-partitioner pool assignment, the worker applying the mask through hwloc, binding "none".',
     ],
-    'queries': [_c15(n, m, sh, (S, C, P), tiers) for n, m in _modes.items() for sh, (S, C, P), tiers in [
+    'queries': [_c15(n, m, 's2c2p2', (2, 2, 2), ('thorough',), cap=10) for n, m in _modes.items()] +    # 8 PUs, up to 9 threads
+               [_c15(n, m, sh, (S, C, P), tiers) for n, m in _modes.items() for sh, (S, C, P), tiers in [
         ('s2c1p2', (2, 1, 2), ('quick', 'thorough')),      # 2 sockets x 1 core x 2 PUs (SMT, multi-socket)
         ('s2c21p1', (2, 21, 1), ('quick', 'thorough')),    # asymmetric: socket 0 has 2 cores, socket 1 has 1
         ('s2c2p1', (2, 2, 1), ('thorough',)),
